@@ -7,6 +7,7 @@ import Tea.VT.Term
 import Tea.Render.Program
 import Tea.Render.Fps
 import Tea.Runtime.Pipeline
+import Tea.Runtime.Lifecycle
 
 open Tea Tea.Driver Tea.Input
 
@@ -260,6 +261,77 @@ def run (line : String) : String :=
   | _ => "bad-op"
 end PTrace
 
+namespace LifeStream
+open Tea.Runtime.Life
+
+/-- every lifecycle label that can matter, in a fixed order (greedy scheduler) -/
+def lifecycleLabels (nSenders nKillers : Nat) : List Label :=
+  [.elCtxExit, .elCmdAbort, .elRecvErr, .elRecvSig, .runTail, .dispExit, .sigExit, .sigAbort, .resizeExit,
+   .initAbort, .readerMsgAbort, .readerErrAbort, .readerCanceled, .elCmdHandOver, .initHandOver, .elRecvReader] ++
+  (List.range nSenders).map (fun i => Label.elRecvSender i) ++
+  (List.range nSenders).map (fun i => Label.sendAbort i) ++
+  ((none :: (List.range nKillers).map some).flatMap fun who =>
+    [.shCancel who, .shHandlers who, .shReader who, .shWaitRead who, .shWaitReadTimeout who, .shRenderer who, .shRestore who]) ++
+  [.runReturn]
+
+/-- run lifecycle steps (first enabled, repeatedly) plus the returns of user callbacks the
+scenario releases; stop when Run has returned or nothing is enabled -/
+def settle (fuel : Nat) (release : List Label) (s : St) : St :=
+  match fuel with
+  | 0 => s
+  | fuel + 1 =>
+    if s.runPc = .returned then s else
+    let labels := lifecycleLabels s.senders.length s.killers.length ++ release
+    match labels.findSome? (fun l => step s l) with
+    | some s' => settle fuel release s'
+    | none => s
+
+def applyAll (s : St) (ls : List Label) : St :=
+  ls.foldl (fun s l => (step s l).getD s) s
+
+def run (line : String) : String :=
+  match words line with
+  | [cause, strike, pending, input] =>
+    let nBlocked := if pending == "senders1" then 1 else if pending == "senders50" then 50 else 0
+    -- sender 0: the strike message; sender 1: the cause message (quit/interrupt); 2..: pending senders
+    let causeKind : SendKind := if cause == "interrupt" then .interrupt else .quit
+    let sendersK : List SendKind := [.user, causeKind, .user] ++ List.replicate nBlocked .user
+    let hasInput : Bool := input != "nil" || cause == "readerr"
+    let cfg : Config := { cancelable := input == "pipe", withSignalHandler := false, ignoreSignals := false, withResize := false, withInitCmd := false, withInput := hasInput, senders := sendersK, waiters := 0 }
+    let s0 := init cfg
+    -- reach the strike point
+    let toCallback : List Label := [.sendCall 0, .elRecvSender 0]
+    let s1 := match strike with
+      | "in-update" | "in-filter" => applyAll s0 toCallback
+      | "in-view" => applyAll s0 (toCallback ++ [.callbackReturns, .elCmdHandOver])
+      | "in-writer" => applyAll s0 [.tick]
+      | _ => s0
+    -- pending senders block in Send
+    let s2 := applyAll s1 ((List.range nBlocked).map (fun i => Label.sendCall (3 + i)))
+    -- the cause strikes
+    let s3 := match cause with
+      | "quitmsg" | "quitapi" | "interrupt" => applyAll s2 [.sendCall 1]
+      | "kill" | "panic-cmd" => applyAll s2 [.killCall, .shCancel (some 0)]
+      | "ctx" => applyAll s2 [.parentCancel]
+      | "readerr" => applyAll s2 [.readError]
+      | "panic-update" =>
+        -- the message whose Update panics is sent now; it is processed once the loop is free again
+        -- (the callbacks in progress return: applyAll skips the labels that are not enabled)
+        applyAll s2 [.sendCall 2, .writerReturns, .callbackReturns, .elCmdHandOver, .viewReturns, .elRecvSender 2, .callbackPanics]
+      | "panic-view" =>
+        applyAll s2 [.sendCall 2, .writerReturns, .callbackReturns, .elCmdHandOver, .viewReturns, .elRecvSender 2,
+                     .callbackReturns, .elCmdHandOver, .viewPanics]
+      | _ => s2
+    -- the in-progress callbacks return; everything else is lifecycle
+    let s4 := settle 2000 [.callbackReturns, .viewReturns, .writerReturns] s3
+    if s4.runPc = .returned then
+      let e := match s4.runErr with
+        | .nil => "nil" | .interrupted => "interrupted" | .killed => "killed" | .reader => "readerr"
+      s!"returned err={e}"
+    else "HANG"
+  | _ => "bad-op"
+end LifeStream
+
 partial def loop (h : IO.FS.Stream) (out : IO.FS.Stream) (f : String → String) : IO Unit := do
   let line ← h.getLine
   if line.isEmpty then return ()
@@ -279,4 +351,5 @@ def main (args : List String) : IO UInt32 := do
   | ["glue"] => loop stdin stdout stepGlue; return 0
   | ["fps"] => loop stdin stdout stepFPS; return 0
   | ["ptrace"] => loop stdin stdout PTrace.run; return 0
+  | ["life"] => loop stdin stdout LifeStream.run; return 0
   | _ => IO.eprintln "usage: driver <stream>"; return 2
